@@ -755,6 +755,105 @@ theorem pa_members (isOr : Bool) : (cs : List SCond) → kidsWf cs = true → cs
       simp [fAfter, condList, List.append_assoc]
 end
 
+
+/-! ### The clause loop of ParseQuery -/
+
+/-- orderby / limit / offset of the sentence written into `q`. -/
+def Sentence.applyTail (s : Sentence) (q : Query) : Query :=
+  { q with
+    orderBy := match s.orderby with | none => q.orderBy | some w => w.text
+    limit := match s.limit with | none => q.limit | some t => ((parseUint31 t).getD 0 : Nat)
+    offset := match s.offset with | none => q.offset | some t => ((parseUint31 t).getD 0 : Nat) }
+
+theorem kw_ne1 : (kwOrderby = kwWhere) = False := by decide
+theorem kw_ne2 : (kwLimit = kwWhere) = False := by decide
+theorem kw_ne3 : (kwLimit = kwOrderby) = False := by decide
+theorem kw_ne4 : (kwOffset = kwWhere) = False := by decide
+theorem kw_ne5 : (kwOffset = kwOrderby) = False := by decide
+theorem kw_ne6 : (kwOffset = kwLimit) = False := by decide
+
+theorem stop_tail (s : Sentence) : stopStart s.tailToks = true := by
+  obtain ⟨g, p, w, ob, l, o, st⟩ := s
+  cases ob <;> cases l <;> cases o <;> simp [Sentence.tailToks, stopStart]
+
+theorem clausesPost_tail (s : Sentence) (hwf : s.wf = true) (q : Query)
+    (h1 : q.orderBy = []) (h2 : q.limit = 0) (h3 : q.offset = 0) :
+    clausesPost q s.tailToks = .ok (s.applyTail q) := by
+  simp only [Sentence.wf, Bool.and_eq_true] at hwf
+  obtain ⟨⟨⟨⟨⟨_, _⟩, _⟩, _⟩, hlim⟩, hoff⟩ := hwf
+  obtain ⟨g, p, w, ob, l, o, st⟩ := s
+  obtain ⟨qa, qb, qc, qd, qe, qf⟩ := q
+  simp only at h1 h2 h3 hlim hoff
+  subst h1 h2 h3
+  cases ob <;> cases l <;> cases o <;>
+    simp only [Option.isSome_iff_exists] at hlim hoff <;>
+    (try obtain ⟨n, hn⟩ := hlim) <;> (try obtain ⟨m, hm⟩ := hoff) <;>
+    simp [Sentence.tailToks, Sentence.applyTail, clausesPost, kw_ne1, kw_ne2, kw_ne3, kw_ne4, kw_ne5, kw_ne6, *]
+
+theorem clauses_tail (s : Sentence) (hwf : s.wf = true) (q : Query)
+    (h1 : q.orderBy = []) (h2 : q.limit = 0) (h3 : q.offset = 0) :
+    clauses O q s.tailToks = .ok (s.applyTail q) := by
+  simp only [Sentence.wf, Bool.and_eq_true] at hwf
+  obtain ⟨⟨⟨⟨⟨_, _⟩, _⟩, _⟩, hlim⟩, hoff⟩ := hwf
+  obtain ⟨g, p, w, ob, l, o, st⟩ := s
+  obtain ⟨qa, qb, qc, qd, qe, qf⟩ := q
+  simp only at h1 h2 h3 hlim hoff
+  subst h1 h2 h3
+  cases ob <;> cases l <;> cases o <;>
+    simp only [Option.isSome_iff_exists] at hlim hoff <;>
+    (try obtain ⟨n, hn⟩ := hlim) <;> (try obtain ⟨m, hm⟩ := hoff) <;>
+    simp [Sentence.tailToks, Sentence.applyTail, clauses, kw_ne1, kw_ne2, kw_ne3, kw_ne4, kw_ne5, kw_ne6, *]
+
+theorem parse_where (s : Sentence) (hwf : s.wf = true) (c : SCond) (hc : s.where_ = some c) :
+    ∃ body, s.whereToks = kwWhere :: body ∧
+      parseAndOr O Frame.init [] (body ++ s.tailToks) = .ok (c.cond O, s.tailToks) := by
+  have hst := stop_tail s
+  simp only [Sentence.wf, Bool.and_eq_true] at hwf
+  obtain ⟨⟨⟨⟨⟨_, _⟩, hw⟩, _⟩, _⟩, _⟩ := hwf
+  simp only [hc] at hw
+  have single : parseAndOr O Frame.init [] (c.toks ++ s.tailToks) = .ok (c.cond O, s.tailToks) := by
+    rw [pa_scond O c hw Frame.init [] s.tailToks rfl rfl, pa_stop O _ _ (by simp [Frame.add, Frame.init]) hst]
+    simp [Frame.add, Frame.init, Frame.finish]
+  cases c with
+  | clause g k o n v => exact ⟨_, by simp [Sentence.whereToks, hc], single⟩
+  | group isOr g p ng neg kids =>
+    cases neg with
+    | true => exact ⟨_, by simp [Sentence.whereToks, hc], single⟩
+    | false =>
+      cases hs : s.strip with
+      | false => exact ⟨_, by simp [Sentence.whereToks, hc, hs], single⟩
+      | true =>
+        refine ⟨membersToks (connective isOr) kids, by simp [Sentence.whereToks, hc, hs], ?_⟩
+        simp only [SCond.wf, Bool.and_eq_true, decide_eq_true_eq] at hw
+        obtain ⟨⟨⟨⟨_, _⟩, _⟩, hk⟩, hlen⟩ := hw
+        have hne : kids ≠ [] := by intro e; subst e; simp at hlen
+        rw [pa_members O isOr kids hk hne Frame.init [] s.tailToks rfl rfl (by simp [Frame.init]),
+          pa_stop O _ _ (by simp [fAfter]) hst, finish_group O isOr kids hlen]
+        cases isOr <;> simp [SCond.cond]
+
+theorem query_eq (s : Sentence) :
+    s.query O = s.applyTail { Query.new s.pfx.text with where_ := s.where_.map (·.cond O) } := by
+  obtain ⟨g, p, w, ob, l, o, st⟩ := s
+  cases ob <;> cases l <;> cases o <;> simp [Sentence.query, Sentence.applyTail, Query.new]
+
+/-- Parsing the words of a well-formed sentence yields the query the grammar assigns to it (then `Check`). -/
+theorem parseToks_sentence (s : Sentence) (hwf : s.wf = true) : parseToks O s.toks = (s.query O).check := by
+  have hq : (kwQuery ≠ kwQuery) = False := by simp
+  rw [query_eq]
+  cases hc : s.where_ with
+  | none =>
+    have : s.whereToks = [] := by simp [Sentence.whereToks, hc]
+    simp only [Sentence.toks, this, List.nil_append, parseToks, hq, if_false]
+    rw [clauses_tail O s hwf _ rfl rfl rfl]
+    simp [Query.new]
+  | some c =>
+    obtain ⟨body, hb, hp⟩ := parse_where O s hwf c hc
+    simp only [Sentence.toks, hb, List.cons_append, parseToks, hq, if_false]
+    rw [clauses.eq_def]
+    simp only [if_true, hp]
+    rw [clausesPost_tail s hwf _ rfl rfl rfl]
+    simp [Query.new]
+
 end parser
 
 end PB.Query
